@@ -1,7 +1,7 @@
 Require Extraction.
 Require Import ExtrOcamlBasic.
-From Zix Require Import RingSpec RingModel.
+From Zix Require Import RingSpec RingModel RingHuge.
 Separate Extraction RingModel.next_power_of_two RingModel.ring_init RingModel.ring_step
   RingModel.ring_read_space RingModel.ring_write_space RingModel.ring_capacity RingModel.ring_peek
-  RingModel.u32
+  RingModel.u32 RingModel.size RingHuge.huge_step RingHuge.spec_huge_step RingHuge.ring_mlock
   RingSpec.spec_step RingSpec.spec_init RingSpec.spec_capacity RingSpec.len.
